@@ -20,6 +20,7 @@ FAMILIES = {
     "loader": "harness.check_loader",
     "rdf": "harness.check_rdf",
     "query": "harness.check_query",
+    "convert": "harness.check_convert",
 }
 # property -> families whose judges print verdicts for it
 PROPS = {
@@ -35,6 +36,7 @@ PROPS = {
     "C18": ["loader"],
     "C10": ["rdf"],
     "C20": ["query"],
+    "C15": ["convert"],
     "C01": ["formats"], "C02": ["formats"],
 }
 EXPLAIN = {}
